@@ -2324,12 +2324,15 @@ class HelicalLattice(Lattice):
     def save_hdf5(self, hdf5_saver, h5gr, subpath):
         super().save_hdf5(hdf5_saver, h5gr, subpath)
         hdf5_saver.save(self.regular_lattice, subpath + 'regular_lattice')
-        h5gr.attrs['N_unit_cells'] = self.N_sites
+        h5gr.attrs['N_unit_cells'] = self._N_cells
 
     @classmethod
     def from_hdf5(cls, hdf5_loader, h5gr, subpath):
-        obj = super().from_hdf5(hdf5_loader, h5gr, subpath)
-        obj._N_cells = hdf5_loader.get_attr(h5gr, 'N_unit_cells')
+        # everything is determined by the regular lattice and the number of unit cells
+        regular_lattice = hdf5_loader.load(subpath + 'regular_lattice')
+        N_unit_cells = int(hdf5_loader.get_attr(h5gr, 'N_unit_cells'))
+        obj = cls(regular_lattice, N_unit_cells)
+        hdf5_loader.memorize_load(h5gr, obj)
         return obj
 
     def ordering(self, order):
